@@ -25,7 +25,14 @@ RULE = ("history differential: random histories over {create v1/v2/hybrid of p (
         "root logger at DEBUG for the rest of the process), and aimed: a -v create / info / recheck / magnet followed by a rebuild of a "
         "BATCH of two metafiles (two trackers) for the same single file whose RETURNED counter and destination are compared, by "
         "rechecks with a hook registered through Checker.register_callback whose received messages are part of the result, and by "
-        "the recheck of a v1 torrent made from empty files one of which grew afterwards.  A history is non-trivial when it contains a create after a filesystem change "
+        "the recheck of a v1 torrent made from empty files one of which grew afterwards.  EDIT CHAINS in one process (v1 / v2 / hybrid, "
+        "library and CLI): a metafile created without comment / source / private, then one edit per editable field in every rotation "
+        "of the six fields (so that each edit that ADDS an info field -- and must re-sort info -- comes after an earlier edit of another "
+        "field), a clear, and the same fields set again; thorough tier: every ordered pair of fields as the first two edits; the result "
+        "of such a step is the metafile BYTE FOR BYTE (key order included); random histories draw their edits from all six fields.  "
+        "The fresh interpreter of every step runs with ANOTHER string-hash seed (PYTHONHASHSEED) than the long-lived one: a result that "
+        "depends on set / dict-of-str iteration order shows up as a difference (reported as hash-seed-dependent-result when the fresh run "
+        "with the long-lived side's seed agrees with it).  A history is non-trivial when it contains a create after a filesystem change "
         "that followed an earlier create/recheck of the same path; distinct = distinct step sequence.")
 TRUSTED_BASE = [
     "Coq 8.16.1 kernel; theorems closed under the global context",
@@ -40,6 +47,53 @@ ASSUMPTIONS = ["`respects`: the generated summaries over-approximate each operat
 
 # runners/history.py steps plus the interactive dialogs and `create --config` (harness/interactive_route.py delegates the rest)
 RUNNER = os.path.join(core.VERIF, "harness", "interactive_route.py")
+
+
+EDIT_VALUES = {"comment": ["first comment", "second"], "source": ["SRC", "S2"], "private": [True],
+               "announce": ["http://n/1 http://n/2", ["http://l/1"]], "url-list": [["http://w/1"], "http://w/2 http://w/3"],
+               "httpseeds": ["http://h/1", ["http://h/2", "http://h/3"]]}
+EDIT_FIELDS = ["announce", "comment", "url-list", "source", "httpseeds", "private"]
+
+
+def edit_histories(tier):
+    """several edits of one metafile in one process.  The creators of the histories write no comment / source / private, so the
+    first edit naming one of them ADDS a key to info (which must then be re-sorted): every such step comes after an earlier
+    edit of another field.  Something kept from the first edit (a used-up iterator, a cached field table, a remembered
+    `info was edited` flag) shows as a byte difference from the fresh interpreter."""
+    out = []
+    combos = [(1, "lib"), (2, "cli"), (3, "lib"), (1, "cli"), (2, "lib"), (3, "cli")]
+
+    def chain(v, via, order, creator):
+        h = [{"op": "create", "version": v, "via": creator, "pl": 16384}]
+        for i, f in enumerate(order):
+            h.append({"op": "edit", "version": v, "via": via, "fields": {f: EDIT_VALUES[f][i % len(EDIT_VALUES[f])]}})
+        # clear (library only) and set again: the key is ADDED a second time; then plain replacements
+        h.append({"op": "edit", "version": v, "via": "lib", "fields": {"comment": "", "source": ""}})
+        h.append({"op": "edit", "version": v, "via": via, "fields": {"source": "again"}})
+        h.append({"op": "edit", "version": v, "via": via, "fields": {"comment": "again", "announce": "http://z/1"}})
+        return h
+    for k, (v, via) in enumerate(combos):
+        order = EDIT_FIELDS[k:] + EDIT_FIELDS[:k]
+        out.append(chain(v, via, order, ["lib", "asm", "cli"][k % 3]))
+    # after the interactive editor, and after an edit that RAISED (no metafile)
+    out.append([{"op": "create", "version": 2, "via": "asm"}, {"op": "create", "version": 1, "via": "lib"},
+                {"op": "iedit", "version": 2, "edits": [["tracker", "http://i/1"]]},
+                {"op": "edit", "version": 2, "via": "lib", "fields": {"private": True}},
+                {"op": "edit", "version": 1, "via": "cli", "fields": {"source": "other file"}},
+                {"op": "fs", "action": "remove-meta", "version": 2},
+                {"op": "edit", "version": 2, "via": "lib", "fields": {"comment": "gone"}},
+                {"op": "edit", "version": 1, "via": "lib", "fields": {"comment": "added after a failed edit"}}])
+    if tier == "thorough":
+        n = 0
+        for f1 in EDIT_FIELDS:
+            for f2 in EDIT_FIELDS:
+                if f1 == f2:
+                    continue
+                v, via = combos[n % len(combos)]
+                n += 1
+                rest = [f for f in EDIT_FIELDS if f not in (f1, f2)]
+                out.append(chain(v, via, [f1, f2] + rest[n % 4:] + rest[:n % 4], ["lib", "asm", "cli"][n % 3]))
+    return out
 
 
 def gen_history(rng, length):
@@ -74,6 +128,8 @@ def gen_history(rng, length):
             st = {"op": op, "version": v, "via": rng.choice(["lib", "cli"])}
             if op == "edit":
                 st["comment"] = f"c{rng.randrange(100)}"
+                if rng.random() < 0.6:           # any of the six editable fields; the result is the file byte for byte
+                    st["fields"] = {f: rng.choice(EDIT_VALUES[f]) for f in rng.sample(sorted(EDIT_VALUES), rng.choice([1, 1, 2]))}
             if op == "iedit":
                 st["edits"] = [[rng.choice(["comment", "source"]), f"e{rng.randrange(100)}"]]
             if op == "rebuild-batch":
@@ -150,6 +206,7 @@ def apply_fs(sb, step):
 
 # process-lifetime state observed to change during the one-process side of the histories: snapshot key -> first op that changed it
 STATE_CHANGES = {}
+STATE_WITNESS = {}          # snapshot key -> the history prefix (and its seed) that first showed the change: the replayable input
 
 
 def check_state_cells(ctx):
@@ -169,8 +226,15 @@ def check_state_cells(ctx):
         ctx.traces_validated += 1
         if not ok:
             ctx.disagree("gen/gen_state.py cell list vs process-lifetime state observed to change at run time",
-                         {"observed_change": key, "first_changed_by_step": op}, f"one of the cells {cells}", "no cell explains it")
+                         dict({"observed_change": key, "first_changed_by_step": op}, **STATE_WITNESS.get(key, {})),
+                         f"one of the cells {cells}", "no cell explains it")
     ctx.extra["observed_state_changes"] = sorted(STATE_CHANGES)
+
+
+def hash_seeds(seed, k):
+    """(PYTHONHASHSEED of the long-lived interpreter, of the fresh interpreter of step k): always different"""
+    one = seed % 4000
+    return str(one), str((one + 1 + (seed * 31 + k * 7) % 3999) % 4000 or 4001)
 
 
 def run_history(tmp, hid, steps, seed):
@@ -181,7 +245,7 @@ def run_history(tmp, hid, steps, seed):
     for f, n in (("a", 90000), ("b", 16384), ("d/c", 7)):
         with open(os.path.join(sb, "payload", f), "wb") as fd:
             fd.write(rnd.randbytes(n))
-    env = core.impl_env({"HOME": os.path.join(tmp, f"h{hid}", "home")})
+    env = core.impl_env({"HOME": os.path.join(tmp, f"h{hid}", "home"), "PYTHONHASHSEED": hash_seeds(seed, 0)[0]})
     os.makedirs(env["HOME"])
     proc = subprocess.Popen([core.PY, RUNNER, sb], stdin=subprocess.PIPE, stdout=subprocess.PIPE, stderr=subprocess.DEVNULL,
                             text=True, env=env, cwd=os.path.join(tmp, f"h{hid}"))
@@ -203,23 +267,40 @@ def run_history(tmp, hid, steps, seed):
             r1 = rec["result"]
             for key in rec.get("state_changed", []):
                 STATE_CHANGES.setdefault(key, st["op"])
+                STATE_WITNESS.setdefault(key, {"history": steps[:k + 1], "history_seed": seed})
             from runners import history as H
             d1 = H.tree_digest(sb)
             post = sb + f".post{k}"
             os.rename(sb, post)
             os.rename(pre, sb)
-            p2 = subprocess.run([core.PY, RUNNER, sb, "--once", json.dumps(st)], capture_output=True, text=True, env=env,
-                                cwd=os.path.join(tmp, f"h{hid}"), timeout=300)
-            try:
-                r2 = json.loads(p2.stdout.strip().splitlines()[-1])["result"]
-            except Exception:  # noqa
-                r2 = {"error": "fresh run produced no result", "stderr": p2.stderr[-300:]}
-            d2 = H.tree_digest(sb)
+            def fresh(hs):
+                p2 = subprocess.run([core.PY, RUNNER, sb, "--once", json.dumps(st)], capture_output=True, text=True,
+                                    env=dict(env, PYTHONHASHSEED=hs), cwd=os.path.join(tmp, f"h{hid}"), timeout=300)
+                try:
+                    r = json.loads(p2.stdout.strip().splitlines()[-1])["result"]
+                except Exception:  # noqa
+                    r = {"error": "fresh run produced no result", "stderr": p2.stderr[-300:]}
+                return r, H.tree_digest(sb)
+            hs1, hs2 = hash_seeds(seed, k)
+            keep = sb + f".keep{k}"
+            shutil.copytree(sb, keep, symlinks=True)
+            r2, d2 = fresh(hs2)
+            kind = None
+            if r1 != r2 or d1 != d2:
+                # the same step once more in a fresh interpreter with the LONG-LIVED side's hash seed: does the seed explain it?
+                shutil.rmtree(sb)
+                os.rename(keep, sb)
+                r3, d3 = fresh(hs1)
+                kind = "hash-seed-dependent-result" if (r3, d3) == (r1, d1) else "history-dependent-result"
+                if kind == "hash-seed-dependent-result":
+                    r2 = {"PYTHONHASHSEED=" + hs2: r2, "PYTHONHASHSEED=" + hs1: r3}
+            else:
+                shutil.rmtree(keep, ignore_errors=True)
             shutil.rmtree(sb)
             os.rename(post, sb)
-            if r1 != r2 or d1 != d2:
-                diffs.append({"step": k, "op": st, "one_process": r1, "fresh": r2,
-                              "fs_equal": d1 == d2})
+            if kind:
+                diffs.append({"step": k, "op": st, "one_process": r1, "fresh": r2, "kind": kind,
+                              "fs_equal": d1 == d2, "hash_seeds": {"one_process": hs1, "fresh": hs2}})
                 break
     finally:
         try:
@@ -242,6 +323,39 @@ def after_verbose(steps):
             return True
         seen = seen or bool(st.get("verbose"))
     return False
+
+
+def edit_classes(steps):
+    """boundary classes of the edit steps of a history: an edit that ADDS an info field after an earlier edit in the same process"""
+    out = set()
+    edits = 0
+    present = {}                      # version -> info fields the metafile is known to carry
+    for st in steps:
+        if st["op"] in CREATES:
+            present[str(st.get("version"))] = set()
+        if st["op"] in ("edit", "iedit"):
+            v = str(st.get("version"))
+            named = st.get("fields")
+            if named is None:
+                named = {"comment": st.get("comment")} if st["op"] == "edit" else {e[0]: e[1] for e in st.get("edits", ())}
+            have = present.setdefault(v, set())
+            for f, val in named.items():
+                if f in ("comment", "source", "private"):
+                    if val == "":
+                        have.discard(f)
+                        out.add("edit clears an info field")
+                    elif f not in have:
+                        out.add("edit ADDS an info field after an earlier edit in the same process" if edits
+                                else "edit adds an info field (first edit of the process)")
+                        have.add(f)
+                    else:
+                        out.add("edit replaces an info field")
+                else:
+                    out.add("edit of a top-level field")
+            if "fields" in st:
+                out.add("edit step compared byte for byte")
+            edits += 1
+    return sorted(out)
 
 
 def nontrivial(steps):
@@ -481,6 +595,7 @@ def run(ctx, model_ok):
     hist += interactive_histories(ctx.tier) + config_histories(ctx.tier) + logging_histories(ctx.tier)
     while len(hist) < n:
         hist.append(gen_history(ctx.rng, ctx.rng.randrange(3, maxlen + 1)))
+    hist += edit_histories(ctx.tier)
     with core.Scratch("vc09_") as tmp:
         def work(item):
             i, steps = item
@@ -492,15 +607,97 @@ def run(ctx, model_ok):
                  classes=["history with create after a filesystem change" if nontrivial(steps) else "other history"] +
                  (["operation after an earlier -v (root logger at DEBUG)"] if after_verbose(steps) else []) +
                  (["recheck with a registered hook"] if any(s.get("hook") for s in steps) else []) +
+                 edit_classes(steps) +
                  sorted({"op " + s["op"] for s in steps}),
                  sample=steps if i == 0 else None)
         ctx.traces_validated += 1
         for d in diffs:
-            ctx.fail("history-dependent-result", {"history": steps[:d["step"] + 1]},
+            ctx.fail(d.get("kind", "history-dependent-result"),
+                     {"history": steps[:d["step"] + 1], "history_seed": ctx.seed * 1000 + i, "hash_seeds": d.get("hash_seeds")},
                      {"fresh_interpreter": d["fresh"]}, {"same_process": d["one_process"], "fs_equal": d.get("fs_equal")})
     check_state_cells(ctx)
 
 
+def _replay_history(inp, tmp, n):
+    steps, seed = inp["history"], inp.get("history_seed")
+    if seed is None:
+        print("replay: cannot rebuild input of kind history (the seed of the history's payload was not recorded in this file)")
+        return 2
+    print(f"[C09 replay] history of {len(steps)} steps (payload seed {seed}; PYTHONHASHSEED long-lived / fresh: {hash_seeds(seed, len(steps) - 1)}):")
+    for st in steps:
+        print("   ", json.dumps(st))
+    diffs = run_history(tmp, n, steps, seed)
+    for d in diffs:
+        print(f"[C09 replay] VIOLATION {d.get('kind')}: step {d['step']} {json.dumps(d['op'])}\n   same process    : {json.dumps(d['one_process'])[:600]}\n"
+              f"   fresh interpreter: {json.dumps(d['fresh'])[:600]}\n   filesystem equal : {d.get('fs_equal')}")
+    if not diffs:
+        print("[C09 replay] every step gave the same result and the same filesystem in the long-lived and in a fresh interpreter")
+    return 1 if diffs else 0
+
+
+def _replay_state(inp, tmp, n):
+    """an observed change of process-lifetime state that no cell of GenState.v explained: run the recorded history again and
+       compare what changed with the cells REGENERATED from the tree under test"""
+    import re
+    import gen_state
+    import state_snapshot
+    key = inp.get("observed_change")
+    if "history" not in inp or inp.get("history_seed") is None:
+        print("replay: cannot rebuild input of kind state-cell disagreement (the history that showed the change was not recorded)")
+        return 2
+    try:
+        text, _, _ = gen_state.gen_state(core.REPO)
+    except Exception as e:  # noqa
+        print(f"[C09 replay] STILL BROKEN: translator gen_state refused: {type(e).__name__}: {e}")
+        return 1
+    cells = re.findall(r'\(\d+, "([^"]+)"\)', text)
+    STATE_CHANGES.clear()
+    run_history(tmp, n, inp["history"], inp["history_seed"])
+    print(f"[C09 replay] state observed to change during the recorded history: {sorted(STATE_CHANGES)}; cells generated now: {cells}")
+    bad = [k for k in STATE_CHANGES if not state_snapshot.covered(k, cells)]
+    if key not in STATE_CHANGES:
+        print(f"[C09 replay] the recorded change {key} is not observed on this tree")
+    for k in bad:
+        print(f"[C09 replay] DISAGREE: no generated cell explains the observed change {k}")
+    return 1 if bad else 0
+
+
 def replay(ctx, data):
-    print(json.dumps(data, indent=1)[:3000])
-    return 0
+    """re-runs the recorded history (same payload seed, same hash seeds) against core.REPO: 1 violated, 0 holds, 2 cannot rebuild"""
+    import sys
+    sys.path.insert(0, os.path.join(core.VERIF, "harness"))
+    from props import c17
+    kind = str(data.get("kind"))
+    inp = data.get("input") if isinstance(data.get("input"), dict) else {}
+    print(f"[C09 replay] kind={kind} implementation under test: {core.REPO}")
+    rcs = []
+    with core.Scratch("vc09r_") as tmp:
+        if data.get("finding") or data.get("reproducer"):
+            rcs.append(c17.replay_finding("C09", data))
+        elif kind in ("history-dependent-result", "hash-seed-dependent-result"):
+            if "history" not in inp:
+                print(f"replay: cannot rebuild input of kind {kind} (no history recorded)")
+                rcs.append(2)
+            else:
+                rcs.append(_replay_history(inp, tmp, 0))
+        elif kind == "proof-or-correspondence-broken" or "what" in data:
+            dis = data.get("disagreements") or ([data] if "what" in data else [])
+            for n, d in enumerate(dis[:5]):
+                di = d.get("input") if isinstance(d.get("input"), dict) else {}
+                if str(d.get("what", "")).startswith("gen/gen_state.py cell list"):
+                    rcs.append(_replay_state(di, tmp, n + 1))
+                else:
+                    print(f"replay: cannot rebuild input of kind disagreement {d.get('what')!r} (unknown correspondence)")
+                    rcs.append(2)
+            if data.get("broken"):
+                rcs.append(c17.replay_broken(ctx, "C09", data["broken"]))
+            if not dis and not data.get("broken"):
+                print("[C09 replay] the file records neither a disagreement nor a broken obligation: nothing to replay")
+                rcs.append(2)
+        else:
+            print(f"replay: cannot rebuild input of kind {kind} (unknown kind)")
+            rcs.append(2)
+    rc = 1 if 1 in rcs else (2 if 2 in rcs or not rcs else 0)
+    print("[C09 replay] verdict:", {0: "the property holds on this input", 1: "property VIOLATED on this input",
+                                    2: "could not be replayed exactly"}[rc])
+    return rc
